@@ -370,14 +370,18 @@ def strat_csv():
                      r(2), r(2), r(24), r(len(SEPS)), r(2), r(len(TIME_FMTS)), r(len(_APIS)), r(len(_AFS))).map(_mk_csv)
 
 
-def _csv_roundtrip(case, d):
+def _csv_roundtrip(case, d, set_print=True, set_read=True):
+    """one CSV round trip; set_print / set_read: the caller sets ObsTime's print / read format to case["tfmt"] right
+    before writing / before building the TrackFormat (what the test-suite's callers do); in a sequence of operations a
+    caller may have set them earlier instead"""
     srid, pts, times = case["srid"], case["pts"], case["t"]
     id_e, id_n, id_u, id_t = case["ids"]
     sep, h, tfmt = case["sep"], case["h"], case["tfmt"]
     track, af_names = _build_track(srid, pts, times, afs=case.get("afs", 0))
     path = os.path.join(d, "track.csv")
 
-    ObsTime.setPrintFormat(tfmt)                      # what a caller does before writing ...
+    if set_print:
+        ObsTime.setPrintFormat(tfmt)                  # what a caller does before writing ...
     if case["api"] == "default":
         TrackWriter.writeToFile(track, path)
     elif af_names:
@@ -386,7 +390,8 @@ def _csv_roundtrip(case, d):
     else:
         TrackWriter.writeToFile(track, path, id_E=id_e, id_N=id_n, id_U=id_u, id_T=id_t, separator=sep, h=h)
 
-    ObsTime.setReadFormat(tfmt)                       # ... and before building the format for reading
+    if set_read:
+        ObsTime.setReadFormat(tfmt)                   # ... and before building the format for reading
     if case["api"] == "csv":
         got = TrackReader.readFromCsv(path, id_E=id_e, id_N=id_n, id_U=id_u, id_T=id_t, separator=sep, h=h,
                                       srid=case["srid_name"])
@@ -507,7 +512,8 @@ def _gpx_compare(got, tdata, srid):
     return None
 
 
-def body_gpx(case):
+def _gpx_roundtrip(case):
+    """write / read / compare; returns the 'heights lost' message (recorded ENU root cause) or None"""
     srid = case["srid"]
     lost = None
     with _TmpDir() as d:
@@ -541,6 +547,12 @@ def body_gpx(case):
                     raise Violation("gpx-track-count", "file of one track read as %r tracks" % (
                         None if got is None else got.size()))
                 lost = _gpx_compare(got[0], td, srid) or lost
+    return lost
+
+
+def body_gpx(case):
+    srid = case["srid"]
+    lost = _gpx_roundtrip(case)
     if lost:
         raise Violation("gpx-enu-height-lost", "GPX read with srid ENU: every height comes back 0 (%s)" % lost)
     boundary = any(_near_month_end(t) for td in case["tracks"] for t in td["t"])
@@ -706,6 +718,164 @@ def body_wkt(case):
     return {"nt": len(pts) >= 2 and (frac or expo), "cls": cls}
 
 
+# =================================================================================================
+# (v) sequences of I/O operations in one process: the class-level ObsTime formats are NOT reset between steps.
+#
+# What a caller may rely on (read off the unmodified code):
+#   * TrackWriter.writeToFile prints timestamps with the current print format and changes no format;
+#   * TrackWriter.writeToGpx saves the print format, switches to ISO and puts the saved one back before returning
+#     (one file and one file per track alike);
+#   * TrackFormat(...) / TrackReader.readFromCsv capture the read format current at that moment; the CSV reader
+#     switches to it while reading and restores the previous read format before returning;
+#   * the GPX reader parses <time> with the current read format and sets nothing: the caller sets
+#     '4Y-2M-2DT2h:2m:2sZ' before (all callers do) and it stays until the caller sets something else;
+#   * network CSV and WKT text involve no timestamp format.
+# The model keeps the print / read format the caller BELIEVES to be current (changed only by the caller's own
+# set...Format calls); a CSV step with a time column is in the domain only if both equal the step's format.
+_SEQ_KINDS = ["csv", "csv", "csv", "gpxN", "gpxN", "gpx1", "network", "wkt"]
+
+
+def _mk_seq(t):
+    salt, init_i, raw_steps = t
+    init_i = _ch(salt, 1, init_i, 5)
+    init = None if init_i == 0 else TIME_FMTS[init_i - 1]
+    p_fmt = r_fmt = init or T_DEFAULT
+    steps = []
+    for n, raw in enumerate(raw_steps):
+        kind_i, srid_i, day, fixes, fixes2, has_u, has_t, perm_i, sep_i, h, api_i, mode, tf_i, f1, f2 = raw
+        base = 1000 * (n + 1)
+        c = lambda i, v, m: _ch(salt, base + i, v, m)
+        kind = _SEQ_KINDS[c(0, kind_i, len(_SEQ_KINDS))]
+        if kind == "csv":
+            srid = _SRIDS3[c(1, srid_i, 3)]
+            pts, times = _dec_track(srid, salt, base + 100, day, fixes)
+            mode = c(2, mode, 3)
+            if mode == 2:                               # the caller sets both formats for this step
+                tfmt, set_print, set_read = TIME_FMTS[c(3, tf_i, len(TIME_FMTS))], True, True
+                p_fmt = tfmt
+            elif mode == 1:                             # print format set earlier, read format set per step
+                tfmt, set_print, set_read = p_fmt, False, True
+            else:                                       # relies on what was set earlier
+                tfmt, set_print, set_read = p_fmt, False, r_fmt != p_fmt
+            if set_read:
+                r_fmt = tfmt
+            with_t = c(4, has_t, 4) != 0
+            seps = _allowed_seps(with_t, tfmt)
+            steps.append({"op": "csv", "srid": srid, "srid_name": srid, "pts": pts, "t": times,
+                          "ids": _layout(bool(c(5, has_u, 2)), with_t, _PERMS[c(6, perm_i, 24)]),
+                          "sep": seps[c(7, sep_i, len(SEPS)) % len(seps)], "h": c(8, h, 2), "tfmt": tfmt,
+                          "api": ["file", "csv"][c(9, api_i, 2)], "afs": 0, "set_print": set_print, "set_read": set_read})
+        elif kind in ("gpxN", "gpx1"):
+            srid = ["GEO", "ENU"][c(1, srid_i, 2)]
+            tracks = []
+            for j, fx in enumerate([fixes, fixes2]):
+                if fx:
+                    pts, times = _dec_track(srid, salt, base + 100 * (j + 1), day, fx)
+                    if srid == "ENU":                   # the recorded ENU height defect has its own sub-check
+                        pts = [[q[0], q[1], 0.0] for q in pts]
+                    tracks.append({"tid": "t%d" % j, "pts": pts, "t": times})
+            restore = bool(c(2, f1, 2))
+            steps.append({"op": "gpx", "srid": srid, "tracks": tracks, "one_file": kind == "gpx1",
+                          "api": ["file", "gpx"][c(3, f2, 2)], "af": bool(c(4, has_u, 2)),
+                          "single": bool(c(5, h, 2)) and len(tracks) == 1, "restore_read": restore})
+            if not restore:
+                r_fmt = GPX_READ_FMT
+        elif kind == "network":
+            srid = ["ENU", "GEO"][c(1, srid_i, 2)]
+            nodes = [["n%d" % j] + _dec_xy(srid, c(10 + j, f[0], 64), f[1], f[2]) for j, f in enumerate(fixes)]
+            mids = [_dec_xy(srid, c(20 + j, f[0], 64), f[1], f[2]) for j, f in enumerate(fixes2)]
+            edges = []
+            for j in range(max(1, len(nodes) - 1)):
+                edges.append({"id": "e%d" % j, "s": j, "t": (j + 1) % len(nodes), "o": [0, 1, -1][(f1 + j + perm_i) % 3],
+                              "mid": mids if j == 0 else []})
+            steps.append({"op": "network", "srid": srid, "nodes": nodes, "edges": edges,
+                          "sep": [",", ";"][c(2, sep_i, 2)], "h": c(3, h, 2), "verbose": False})
+        else:
+            srid = ["ENU", "GEO"][c(1, srid_i, 2)]
+            steps.append({"op": "wkt", "srid": srid,
+                          "pts": [_dec_xy(srid, c(10 + j, f[0], 64), f[1], f[2]) + [0.0] for j, f in enumerate(fixes)]})
+    return {"init": init, "steps": steps}
+
+
+def strat_seq():
+    r = lambda n: st.sampled_from(range(n))
+    step = st.tuples(r(len(_SEQ_KINDS)), r(3), _DAY, st.lists(_FIX, min_size=1, max_size=4),
+                     st.lists(_FIX, min_size=0, max_size=3), r(2), r(4), r(24), r(len(SEPS)), r(2), r(2), r(3),
+                     r(len(TIME_FMTS)), r(2), r(2))
+    return st.tuples(_SALT, r(5), st.lists(step, min_size=2, max_size=5)).map(_mk_seq)
+
+
+def _seq_opname(stp):
+    if stp["op"] == "gpx":
+        return "gpx-one-file" if stp["one_file"] else "gpx-file-per-track"
+    return stp["op"]
+
+
+def body_seq(case):
+    p_fmt = r_fmt = T_DEFAULT                            # what reset_globals / a fresh interpreter gives
+    if case.get("init"):                                 # the user sets both formats once at the start
+        ObsTime.setReadFormat(case["init"])
+        ObsTime.setPrintFormat(case["init"])
+        p_fmt = r_fmt = case["init"]
+    leak = None                                          # first step after which the formats differ from the caller's belief
+    lost = None
+    cls = set()
+    nt = False
+    seen_ops = []
+    for i, stp in enumerate(case["steps"]):
+        op = stp["op"]
+        try:
+            if op == "csv":
+                if stp["set_print"]:
+                    p_fmt = stp["tfmt"]
+                if stp["set_read"]:
+                    r_fmt = stp["tfmt"]
+                with_t = stp["ids"][3] >= 0
+                if with_t and not (p_fmt == r_fmt == stp["tfmt"] and stp["sep"] not in stp["tfmt"]):
+                    return {"undef": True}               # caller error (hand-written case): formats not paired
+                with _TmpDir() as d:
+                    _csv_roundtrip(stp, d, stp["set_print"], stp["set_read"])
+                if with_t:
+                    if not stp["set_print"]:
+                        for prev in set(seen_ops):
+                            cls.add("csvT-relies-on-print-format-after-" + prev)
+                        nt = nt or any(o.startswith("gpx") for o in seen_ops)
+                    if not stp["set_read"] and seen_ops:
+                        cls.add("csvT-relies-on-read-format")
+                        nt = True
+            elif op == "gpx":
+                lost = _gpx_roundtrip(stp) or lost
+                if stp["restore_read"]:
+                    ObsTime.setReadFormat(r_fmt)         # the caller puts its own read format back
+                else:
+                    r_fmt = GPX_READ_FMT
+            elif op == "network":
+                body_net(stp)
+            elif op == "wkt":
+                body_wkt(stp)
+            else:
+                return {"undef": True}
+        except Violation as v:
+            if leak is not None:
+                raise Violation("seq-%s-format-left-by-%s" % (leak[2], leak[1]),
+                                "step %d (%s) left the %s format at %r, the caller had %r; step %d (%s) then fails: %s: %s" % (
+                                    leak[0], leak[1], leak[2], leak[3], leak[4], i, _seq_opname(stp), v.key, v.msg))
+            raise Violation(v.key, "step %d (%s): %s" % (i, _seq_opname(stp), v.msg))
+        seen_ops.append(_seq_opname(stp))
+        if leak is None:
+            if ObsTime.getPrintFormat() != p_fmt:
+                leak = (i, _seq_opname(stp), "print", ObsTime.getPrintFormat(), p_fmt)
+            elif ObsTime.getReadFormat() != r_fmt:
+                leak = (i, _seq_opname(stp), "read", ObsTime.getReadFormat(), r_fmt)
+    if lost:
+        raise Violation("gpx-enu-height-lost", "GPX read with srid ENU: every height comes back 0 (%s)" % lost)
+    cls.add("steps-%d" % len(case["steps"]))
+    for o in set(seen_ops):
+        cls.add("has-" + o)
+    cls.add("init-set" if case.get("init") else "init-default")
+    return {"nt": nt, "cls": sorted(cls)}
+
+
 RULE = ("csv: Hypothesis over (srid ENU/GEO/ECEF, 1..8 fixes, with/without U and T, every permutation of the column ids, 6 separators "
         "incl. a two-character one, h 0/1, 4 time formats, reader entry point readFromFile/readFromCsv, writer called with ids or with "
         "its defaults, 0..2 extra feature columns); csv_configs: the complete product srid x column layout (38 layouts) x separator x h "
@@ -716,7 +886,10 @@ RULE = ("csv: Hypothesis over (srid ENU/GEO/ECEF, 1..8 fixes, with/without U and
         "rounding tie in the first dropped decimal, or an awkward constant; stamps: month/year-end days, first/last second and ms. "
         "Non-trivial: CSV with a non-identity column permutation or separator != ',' or a stamp within 1 s of a month/year end; GPX with "
         "several tracks or such a stamp; network with a reverse-oriented multi-vertex edge; WKT with >= 2 points and a fractional or "
-        "exponent-notation coordinate. Distinct = hash of the case.")
+        "exponent-notation coordinate; sequence (2..5 csv / gpx one-file / gpx file-per-track / network / wkt round trips in one "
+        "process, formats set by the user once, per step for reading only, or per step for both, never reset in between) in which a "
+        "CSV step with a time column relies on a print format set before an earlier GPX step or on a read format set before an "
+        "earlier step. Distinct = hash of the case.")
 
 SUBCHECKS = [
     SubCheck("csv", body_csv, strategy=strat_csv, quick=6000, thorough=120000, qshards=8),
@@ -725,4 +898,6 @@ SUBCHECKS = [
     SubCheck("gpx", body_gpx, strategy=strat_gpx, quick=2400, thorough=48000),
     SubCheck("network", body_net, strategy=strat_net, quick=2400, thorough=48000),
     SubCheck("wkt", body_wkt, strategy=strat_wkt, quick=2400, thorough=48000),
+    SubCheck("sequences", body_seq, strategy=strat_seq, quick=2400, thorough=48000,
+             rule="2..5 round trips in one process without resetting ObsTime's class-level formats"),
 ]
